@@ -123,7 +123,9 @@ def rules(model: Model, tier: str) -> List[RuleResult]:
     from .c11 import _fallback
     FB = RuleResult(PROP, "C01-F", "composed operators use an operand's optional private products only under its capability flag (shared with C11-F)", min_instances=5)
     _fallback(model, FB)
-    return [W, W2, P, Wp, T, S, B, Z, N, E, _R11, SH, HF, ADJ, DT, FB, *_sub]
+    GD = RuleResult(PROP, "C01-G", "divisor guards of the Krylov recurrences replace exact zeros only (no absolute magnitude threshold on quantities quadratic in the residual)", min_instances=1)
+    _denominator_guards(model, GD)
+    return [W, W2, P, Wp, T, S, B, Z, N, E, _R11, SH, HF, ADJ, DT, FB, GD, *_sub]
 
 
 def _dot_roles(model: Model, DT: RuleResult):
@@ -164,6 +166,99 @@ def _dot_roles(model: Model, DT: RuleResult):
             minority = second[nm] if len(second[nm]) <= len(first[nm]) else first[nm]
             DT.bad(f, enclosing_stmt(minority[0]), "`%s` is the conjugated (first) argument of _dot in %d call(s) and the plain (second) argument in %d: `%s` is the complex "
                    "conjugate of the scalar the recurrence needs (wrong step for complex systems)" % (nm, len(first[nm]), len(second[nm]), ast.unparse(minority[0])))
+
+
+# ------------------------------------------------------------------------------------------------ C01-G denominator guards
+def _denominator_guards(model: Model, G: RuleResult):
+    """The step lengths of the Krylov recurrences are quotients of inner products that are *quadratic* in the residual, so they become
+    legitimately tiny (|r|^2) long before the stopping test is met.  A guard on a divisor may therefore replace *exact zeros only*: a guard
+    that replaces every divisor below an absolute constant (`|d| < eps`, `clamp_min(eps)`, `maximum(d, eps)`) silently shortens the
+    steps once |r|^2 < eps - the iteration stagnates on well-conditioned systems with a small right-hand side / tight tolerance.  Decided
+    for every divisor of cg / bicgstab / gmres that goes through a helper (or an inline selection): the selecting comparison is `== 0`."""
+    mod = model.module(SOLVE_IMPL)
+    helpers: Dict[str, List[Tuple[FuncInfo, ast.AST]]] = {}
+    inline: List[Tuple[FuncInfo, ast.AST]] = []
+    CLAMPS = {"clamp", "clamp_min", "clip", "maximum", "fmax", "clamp_"}
+
+    def guard_expr(f, e, defs, depth=0):
+        """the expression a divisor comes from, through plain local names"""
+        while isinstance(e, ast.Name) and depth < 4:
+            ds = defs.get(e.id, [])
+            if len(ds) != 1 or not isinstance(ds[0], ast.AST):
+                return e
+            e = ds[0]
+            depth += 1
+        return e
+
+    for f in mod.functions.values():
+        if f.parent is not None or not any(isinstance(n, (ast.For, ast.While)) for n in own_nodes(f.node)):
+            continue
+        defs = {}
+        for n in own_nodes(f.node):
+            if isinstance(n, ast.Assign) and len(n.targets) == 1 and isinstance(n.targets[0], ast.Name):
+                defs.setdefault(n.targets[0].id, []).append(n.value)
+        for n in own_nodes(f.node):
+            if isinstance(n, ast.BinOp) and isinstance(n.op, ast.Div):
+                d = guard_expr(f, n.right, defs)
+                if isinstance(d, ast.Call):
+                    r = model.resolve_expr(mod, d.func)
+                    if r and r[0] == "func" and r[1].module is mod and r[1].name != "_dot":
+                        helpers.setdefault(r[1].name, []).append((f, n))
+                    elif ast.unparse(d.func) in ("torch.where",) or (isinstance(d.func, ast.Attribute) and d.func.attr in CLAMPS | {"masked_fill", "where"}):
+                        inline.append((f, d))
+
+    def classify(where_fi, node, params):
+        """-> ('zero' | 'threshold' | 'none', detail)"""
+        cmps = [c for c in ast.walk(node) if isinstance(c, ast.Compare)]
+        clamps = [c for c in ast.walk(node) if isinstance(c, ast.Call) and ((isinstance(c.func, ast.Attribute) and c.func.attr in CLAMPS)
+                                                                          or ast.unparse(c.func) in ("torch.clamp", "torch.clamp_min", "torch.maximum", "torch.clip", "max"))]
+        if clamps:
+            return "threshold", ast.unparse(clamps[0])[:80]
+        if not cmps:
+            return "none", ""
+        for c in cmps:
+            if len(c.ops) != 1:
+                return "none", ast.unparse(c)
+            a, b = c.left, c.comparators[0]
+            zero = [x for x in (a, b) if isinstance(x, ast.Constant) and isinstance(x.value, (int, float)) and not isinstance(x.value, bool) and x.value == 0]
+            if isinstance(c.ops[0], ast.Eq) and zero:
+                continue
+            if isinstance(c.ops[0], (ast.Lt, ast.LtE, ast.Gt, ast.GtE)):
+                other = [x for x in (a, b)]
+                # an absolute threshold: one side is a literal or a plain parameter / name that is not derived from the data
+                absolute = any(isinstance(x, ast.Constant) or (isinstance(x, ast.Name) and x.id in params and x.id != params[0]) for x in other)
+                if absolute:
+                    return "threshold", ast.unparse(c)
+            return "none", ast.unparse(c)
+        return "zero", ast.unparse(cmps[0])
+
+    n = 0
+    for name, sites in sorted(helpers.items()):
+        h = mod.functions[name]
+        kind, detail = classify(h, h.node, h.params())
+        users = sorted({f.name for f, _ in sites})
+        if kind == "none" and not any(isinstance(x, (ast.Compare, ast.Subscript)) or (isinstance(x, ast.Call) and ast.unparse(x.func) in ("torch.where",)) for x in ast.walk(h.node)):
+            continue                 # not a guard (an ordinary helper that happens to produce a divisor)
+        n += 1
+        if kind == "zero":
+            G.ok(h.fq, "%s (divisors of %s, %d site(s)) replaces exact zeros only: `%s`" % (name, ", ".join(users), len(sites), detail))
+        elif kind == "threshold":
+            G.bad(h, h.node, "the divisor guard %s (used by %s) replaces every divisor below an absolute threshold (`%s`); the quotients of the recurrences are quadratic in "
+                  "the residual and fall below any fixed constant before the stopping test is met, so the steps are silently shortened (stagnation for small right-hand "
+                  "sides / tight tolerances); only exact zeros may be replaced" % (name, ", ".join(users), detail))
+        else:
+            G.undecided(h, h.node, "cannot interpret the divisor guard %s (selection `%s`)" % (name, detail))
+    for f, d in inline:
+        kind, detail = classify(f, d, f.params())
+        n += 1
+        if kind == "zero":
+            G.ok(f.fq, "inline divisor guard replaces exact zeros only: `%s`" % detail)
+        elif kind == "threshold":
+            G.bad(f, enclosing_stmt(d), "the divisor is replaced below an absolute threshold (`%s`): only exact zeros may be replaced (the quotients are quadratic in the residual)" % detail)
+        else:
+            G.undecided(f, enclosing_stmt(d), "cannot interpret the inline divisor guard `%s`" % ast.unparse(d)[:80])
+    if n == 0:
+        G.note("no divisor of the Krylov recurrences goes through a guard")
 
 
 # ------------------------------------------------------------------------------------------------
@@ -502,6 +597,7 @@ def _zero_rhs_shortcut(model: Model, Z: RuleResult):
         if not any("== 0" in t and pol for t, pol in conds):
             continue
         found += 1
+        _zero_test_exact(fw, c, defs, Z)
         shape_args = list(c.args[:1]) if ast.unparse(c.func) != "torch.zeros" else list(c.args)
         names = set()
         for a in shape_args:
@@ -527,6 +623,48 @@ def _zero_rhs_shortcut(model: Model, Z: RuleResult):
                   "fewer operands drops batch axes that only E or M carry")
     if found == 0:
         Z.note("solve_torchfcn.forward has no zero right-hand-side shortcut")
+
+
+def _zero_test_exact(fw: FuncInfo, alloc: ast.AST, defs, Z: RuleResult):
+    """X = 0 is returned without calling the method only if B is *exactly* zero.  The test must therefore be element-wise (`all(B == 0)`,
+    `not B.any()`, `count_nonzero(B) == 0`); a reduction that squares the entries (norm, dot, pow) underflows for |B| below ~1e-162
+    (float64) / ~1e-23 (float32): a tiny but non-zero right-hand side then takes the shortcut, the method (also a caller's callable) is never
+    called and the solution and every gradient through it are zero although the direct path returns A^-1 B."""
+    from ..model import parent as _parent
+    node = alloc
+    test = None
+    while node is not None:
+        par = _parent(node)
+        if isinstance(par, ast.If) and any(node is x for x in par.body + par.orelse):
+            if "== 0" in ast.unparse(par.test) or "any" in ast.unparse(par.test) or "count_nonzero" in ast.unparse(par.test):
+                test = par.test
+                break
+        node = par
+    if test is None:
+        return
+
+    def expand(e, depth=0):
+        if isinstance(e, ast.Name) and depth < 4:
+            ds = [d for d in defs.get(e.id, []) if isinstance(d, ast.AST)]
+            if len(ds) == 1:
+                return expand(ds[0], depth + 1)
+        return e
+    parts = [expand(n) for n in ast.walk(test) if isinstance(n, ast.Name)] + [test]
+    txt = " ".join(ast.unparse(p_) for p_ in parts)
+    squaring = [k for k in ("norm(", ".norm", "vector_norm", "dot(", "vdot(", "pow(", "square(", "** 2", "**2", "matmul(", "einsum(", "var(", "std(") if k in txt]
+    if squaring:
+        Z.bad(fw, test, "the zero right-hand-side shortcut is selected by a reduction that squares the entries (`%s`): it underflows to 0 for a tiny non-zero "
+              "right-hand side, which then gets X = 0 (and zero gradients) without the method being called; the test must be element-wise (all(B == 0))"
+              % ast.unparse(test)[:80])
+        return
+    elementwise = any(isinstance(c, ast.Compare) and len(c.ops) == 1 and isinstance(c.ops[0], (ast.Eq, ast.NotEq)) and
+                      any(isinstance(x, ast.Constant) and x.value == 0 for x in (c.left, c.comparators[0])) and
+                      any(isinstance(expand(x), (ast.Name, ast.Attribute)) for x in (c.left, c.comparators[0])) for p_ in parts for c in ast.walk(p_)) \
+        or ".any()" in txt or "torch.any(" in txt or "count_nonzero" in txt
+    if elementwise:
+        Z.ok(fw.fq, "the zero right-hand-side shortcut is selected by an exact element-wise test: `%s`" % ast.unparse(test)[:60])
+    else:
+        Z.undecided(fw, test, "cannot interpret the test of the zero right-hand-side shortcut `%s`" % ast.unparse(test)[:80])
 
 
 def _dim_role(e: ast.AST, defs, depth=0) -> str:
